@@ -100,6 +100,15 @@ Definition result_ok (g : spec) (r : result) : Prop :=
    (live (r_position r) /\ cf_gametime cf <> 0 /\ r_winner r = flip_mover (to_move_white (r_position r))) \/
    (live (r_position r) /\ r_winner r = GNone /\ List.length (r_moves r) = cf_cutoff cf)).
 
+Lemma result_ok_iff g r : result_ok g r <->
+  (r_initial r = sp_opening g /\
+   replay (sp_opening g) (map to_rmove (r_moves r)) = Move.Ok (r_position r) /\
+   (List.length (r_moves r) <= cf_cutoff cf)%nat /\
+   (game_over (r_position r) = Some (true, r_winner r) \/
+    (live (r_position r) /\ cf_gametime cf <> 0 /\ r_winner r = flip_mover (to_move_white (r_position r))) \/
+    (live (r_position r) /\ r_winner r = GNone /\ List.length (r_moves r) = cf_cutoff cf))).
+Proof. reflexivity. Qed.
+
 Theorem play_game_ok dur left (w : wst) (g : spec) :
   (forall k, 0 <= dur k < 2 ^ 63) -> (cf_limit cf <> 0 -> forall k, 1000000 <= left k < 2 ^ 63) ->
   wsync w -> opening_ok (sp_opening g) ->
